@@ -31,6 +31,23 @@ def _table_freqs(draw, f_lo, f_hi, npoints):
     return [lo] + [_r(lo + (hi - lo) * k / 100.0, 12) for k in fracs] + [hi]
 
 
+def _table(draw, fr, vals):
+    """a per-frequency table; the points are listed by increasing frequency, by decreasing frequency (the order of a
+    data sheet given by wavelength) or in any order - the documentation does not ask for an order"""
+    order = draw(st.sampled_from(['up', 'up', 'down', 'any']))
+    idx = list(range(len(fr)))
+    if order == 'down':
+        idx.reverse()
+    elif order == 'any':
+        idx = list(draw(st.permutations(idx)))
+    return {'value': [vals[i] for i in idx], 'frequency': [fr[i] for i in idx]}
+
+
+def sorted_table(table):
+    pairs = sorted(zip(table['frequency'], table['value']))
+    return {'frequency': [p[0] for p in pairs], 'value': [p[1] for p in pairs]}
+
+
 @st.composite
 def loss_coef(draw, f_lo, f_hi, rng=(0.12, 0.4), per_frequency=True):
     """scalar dB/km or {'value': [...], 'frequency': [...]} spanning the band"""
@@ -40,7 +57,7 @@ def loss_coef(draw, f_lo, f_hi, rng=(0.12, 0.4), per_frequency=True):
     n = draw(st.integers(2, 5))
     fr = _table_freqs(draw, f_lo, f_hi, n)
     vals = [draw(st.floats(*rng).map(lambda v: _r(v, 5))) for _ in range(n)]
-    return {'value': vals, 'frequency': fr}
+    return _table(draw, fr, vals)
 
 
 @st.composite
@@ -61,7 +78,7 @@ def dispersion(draw, f_lo, f_hi, ref_wavelength):
     n = draw(st.integers(3, 6))      # beta3 is a degree-2 polyfit over the table: needs >= 3 points
     fr = _table_freqs(draw, f_lo, f_hi, n)
     vals = [sign * draw(st.floats(0.5e-6, 25e-6).map(lambda v: _r(v, 6))) for _ in range(n)]
-    return {'dispersion_per_frequency': {'value': vals, 'frequency': fr}}
+    return {'dispersion_per_frequency': _table(draw, fr, vals)}
 
 
 @st.composite
